@@ -49,6 +49,9 @@ def specials() -> List[tuple]:
            ("TXT", x, IN, 4500, b""), ("TXT", x, IN, 4500, b"\xff" * 255), ("TXT", x, IN, 4500, b"\x00" * 256),
            ("HINFO", h, IN, 120, "", ""), ("HINFO", h, FL, 120, "c" * 255, "o"), ("HINFO", h, IN, 120, "çpü", "ö" * 127),
            ("NSEC", h, FL, 120, h, (1,)), ("NSEC", h, FL, 120, h, (255,)), ("NSEC", h, FL, 120, h, tuple(range(1, 256, 7))),
+           # type lists whose highest type is the first bit of a bitmap octet (multiples of 8), and the lowest types
+           ("NSEC", h, FL, 120, h, (16,)), ("NSEC", h, FL, 120, h, (1, 16)), ("NSEC", h, FL, 120, h, (8,)),
+           ("NSEC", h, FL, 120, h, (1, 28, 48)), ("NSEC", h, FL, 120, h, (7, 248)), ("NSEC", h, FL, 120, h, (1, 2, 3, 4, 5, 6, 7)),
            ("SRV", x, IN, 120, 65535, 65535, 65535, h), ("SRV", x, FL, 120, 1, 2, 3, x),
            # rdata names that cannot be compressed against anything earlier: they end in an explicit root octet, which is
            # the very last octet of the datagram when the record comes last
